@@ -65,6 +65,10 @@ def check_solve(rep, run: Run, D: Blocks):
         if ok:
             rep.discharged("WS-SOLVE", fi, rev["node"], "distance = Σ of the cost matrix at (rows, cols) returned by that "
                                                         "solver call on that matrix", derived=sym.show(e)[:200])
+        elif not run.interp.clean_before(rev):
+            rep.unmodelled("WS-SOLVE", fi, rev["node"],
+                           "the returned value was not followed exactly (a step of the run was not modelled: "
+                           + ", ".join(sorted({str(u.get("tag")) for u in run.interp.unmodelled}))[:120] + "): no verdict")
         else:
             rep.refuted("WS-SOLVE", fi, rev["node"],
                         f"the returned value is not the sum of the cost matrix over the solver's (row, col) pairs: "
